@@ -65,6 +65,7 @@ def run_seq(job):
     m = Model(ITEMS, multi=2 ** 31 - 1)
     tag, visible = "A", True
     max_alive = 0
+    superseded_while_parked = False
     try:
         st, ok = s.wait_loaded(len(ITEMS))
         if not ok:
@@ -80,6 +81,8 @@ def run_seq(job):
             while time.time() - t0 < 5 and not read_log(s):
                 s.pump(0.01)
         for ev in seq:
+            if s.hooks is not None and s.hooks.parked and ev not in ("release", "wait600", "rel-hook"):
+                superseded_while_parked = True
             if ev == "release":
                 lg = [l for l in read_log(s) if l.startswith("start")]
                 if lg:
@@ -157,7 +160,9 @@ def run_seq(job):
                 res["violation"] = ("more-than-one-preview-alive", detail)
             else:
                 cls = "preview-does-not-catch-up"
-                if hook and "rel-hook" not in seq[:1]:
+                # D5: a superseding request was issued while the previewer was held between "request dequeued" and
+                # "process started"; its cancel signal was dropped and the stale, still running preview blocks the new one
+                if hook and superseded_while_parked and len(alive) == 1 and mode in ("slow", "never", "chatty") and starts and starts[-1] != exp:
                     cls += ":cancel-lost-before-process-start"
                 res["violation"] = (cls, detail)
             return res
@@ -173,10 +178,9 @@ def run_seq(job):
                     detail["screen"] = s.screen.text()
                     res["violation"] = ("preview-pane-shows-something-else", detail)
                     return res
-        if not visible and mode != "instant":
-            if alive:
-                res["violation"] = ("hidden-preview-still-running", detail)
-                return res
+        if not visible and alive:
+            # not demanded by the property (a hidden preview is not a superseded one); counted for the record
+            res["counters"] = {"hidden_preview_still_running": 1}
         # end of session: nothing may survive
         s.post("abort")
         code = s.wait_exit(10.0)
@@ -226,6 +230,8 @@ def run(c, replay):
                 if hook and mode in ("instant", "chatty") and not c.thorough:
                     continue
                 if len(q) == 3 and (mode in ("instant", "chatty") or hook == "preview:started"):
+                    continue
+                if not c.thorough and len(q) == 2 and (hook or mode in ("instant", "chatty")):
                     continue
                 jobs.append((mode, hook, q))
     c.bounds = dict(events=EVENTS, depth=depth, duration_classes=["instant", "slow (gated)", "chatty (incremental output, gated)", "never-ending"],
